@@ -655,8 +655,15 @@ func (_this *cteListener) EnterContainerRecordType(ctx *parser.ContainerRecordTy
 
 	// TODO: ExitRecordTypeBegin isn't getting called???
 
-	identifier := ctx.GetText()
+	// The name is in the first token ("@name<"). Rendering the text of the
+	// whole container to find it costs time and memory that grow with the
+	// square of the number of entries.
+	identifier := ctx.GetStart().GetText()
 	cutoff := strings.IndexByte(identifier, '<')
+	if cutoff < 0 {
+		identifier = ctx.GetText()
+		cutoff = strings.IndexByte(identifier, '<')
+	}
 	_this.eventReceiver.OnRecordType([]byte(identifier[1:cutoff]))
 }
 
@@ -673,8 +680,13 @@ func (_this *cteListener) EnterContainerRecord(ctx *parser.ContainerRecordContex
 		_this.wrapPanic(recover(), ctx.BaseParserRuleContext)
 	}()
 
-	identifier := ctx.GetText()
+	// (see EnterContainerRecordType)
+	identifier := ctx.GetStart().GetText()
 	cutoff := strings.IndexByte(identifier, '{')
+	if cutoff < 0 {
+		identifier = ctx.GetText()
+		cutoff = strings.IndexByte(identifier, '{')
+	}
 	_this.eventReceiver.OnRecord([]byte(identifier[1:cutoff]))
 }
 
